@@ -660,7 +660,7 @@ class CallMixin(object):
                                 m = y
         if m is None:
             fail(node, 'lambda without call operator')
-        fr = Frame('lambda', lam.this, None, self.fresh('end_lambda'))
+        fr = Frame(getattr(lam, 'fname', 'lambda'), lam.this, None, self.fresh('end_lambda'))
         fr.scopes = [dict(s) for s in lam.env] + [{}]
         fr.is_lambda = True
         # by-reference capture: the lambda sees the caller's *current* bindings of captured names
